@@ -273,22 +273,26 @@ theorem C12_mutation_logged {s : St} {w : Wh} (h : ReachableW (s, w)) {t : Tid} 
     ∃ x ∈ w.hist, x.1 = w.ncs :=
   (invW_reachable h).done t hp
 
-/-! ## Non-vacuity: a real trace (harness seed 420, PCT scheduler) of
-`int-d;lw,pb=1,pb=2,pb=3,rel,lw,eri=1,rel;lr,all,rel`.  The reader (thread 2) sits on node `N1` while the writer
-(thread 1) erases it. -/
+/-! ## Non-vacuity: a real trace (harness seed 201, sticky-random scheduler) of
+`int-d;lw,pb=1,pb=2,pb=3,rel,lw,eri=1,rel;lr,all,rel`.  The reader (thread 2) starts while the third push is
+still running and sits on node `N1` while the writer (thread 1) erases it. -/
 def witness12 : List (Tid × Ev) :=
   [(2, .call (.lock false)),
    (2, .ret (.lock false)),
    (2, .call .beg),
+   (2, .alo true 0),
+   (2, .pstZn 0 true),
+   (2, .conR 0 (some 2) none),
+   (2, .ald .zhead .rlx none),
    (1, .call (.lock true)),
    (1, .ret (.lock true)),
    (1, .call (.push false false 1)),
-   (1, .alo true 0),
-   (1, .pstZn 0 true),
-   (1, .conR 0 (some 1) none),
+   (1, .alo true 1),
+   (1, .pstZn 1 true),
+   (1, .conR 1 (some 1) none),
    (1, .ald .zhead .rlx none),
-   (1, .ast (.rnext 0) .rlx none),
-   (1, .cas .sc none (some 0) true none),
+   (1, .ast (.rnext 1) .rlx none),
+   (1, .cas .sc none (some 1) true none),
    (1, .mlk),
    (1, .alo false 0),
    (1, .pstDel 0 false),
@@ -318,28 +322,41 @@ def witness12 : List (Tid × Ev) :=
    (1, .pstData 2 3),
    (1, .conN 2 3),
    (1, .ald .tail .rlx (some 1)),
+   (2, .ast (.rnext 0) .rlx none),
+   (2, .cas .sc none (some 0) false (some 1)),
+   (2, .ast (.rnext 0) .rlx (some 1)),
+   (2, .cas .sc (some 1) (some 0) true (some 1)),
+   (2, .ald .head .sc (some 0)),
+   (2, .ret .beg),
+   (2, .call .der),
+   (2, .pldData 0 1),
+   (2, .ret .der),
+   (2, .call .nxt),
    (1, .ast (.nback 2) .sc (some 1)),
    (1, .ast (.nnext 1) .sc (some 2)),
    (1, .ast .tail .sc (some 2)),
    (1, .mul),
    (1, .ret (.push false false 3)),
    (1, .call .rel),
-   (1, .ald (.rnext 0) .sc none),
-   (1, .ast (.rnext 0) .sc none),
-   (1, .ast (.rowner 0) .sc none),
+   (1, .ald (.rnext 1) .sc none),
+   (1, .ast (.rnext 1) .sc none),
+   (1, .ast (.rowner 1) .sc none),
    (1, .ret .rel),
    (1, .call (.lock true)),
    (1, .ret (.lock true)),
    (1, .call .beg),
-   (1, .alo true 1),
-   (1, .pstZn 1 true),
-   (1, .conR 1 (some 1) none),
+   (1, .alo true 2),
+   (1, .pstZn 2 true),
+   (1, .conR 2 (some 1) none),
    (1, .ald .zhead .rlx (some 0)),
-   (1, .ast (.rnext 1) .rlx (some 0)),
-   (1, .cas .sc (some 0) (some 1) true (some 0)),
-   (2, .alo true 2),
-   (2, .pstZn 2 true),
-   (2, .conR 2 (some 2) none),
+   (2, .ald (.nnext 0) .sc (some 1)),
+   (2, .ret .nxt),
+   (2, .call .der),
+   (2, .pldData 1 2),
+   (2, .ret .der),
+   (2, .call .nxt),
+   (1, .ast (.rnext 2) .rlx (some 0)),
+   (1, .cas .sc (some 0) (some 2) true (some 0)),
    (1, .ald .head .sc (some 0)),
    (1, .ret .beg),
    (1, .call .nxt),
@@ -349,41 +366,24 @@ def witness12 : List (Tid × Ev) :=
    (1, .mlk),
    (1, .ald (.nnext 1) .sc (some 2)),
    (1, .pldDel 1 false),
+   (1, .alo true 3),
+   (1, .pstZn 3 false),
+   (1, .conR 3 none (some 1)),
    (1, .pstDel 1 true),
-   (2, .ald .zhead .rlx (some 1)),
-   (2, .ast (.rnext 2) .rlx (some 1)),
-   (2, .cas .sc (some 1) (some 2) true (some 1)),
-   (2, .ald .head .sc (some 0)),
-   (2, .ret .beg),
-   (2, .call .der),
-   (2, .pldData 0 1),
-   (2, .ret .der),
-   (2, .call .nxt),
-   (2, .ald (.nnext 0) .sc (some 1)),
-   (2, .ret .nxt),
-   (2, .call .der),
-   (2, .pldData 1 2),
-   (2, .ret .der),
-   (2, .call .nxt),
    (1, .ald (.nback 1) .sc (some 0)),
    (1, .ald (.nnext 1) .sc (some 2)),
    (1, .ast (.nnext 0) .sc (some 2)),
    (1, .ast (.nback 2) .sc (some 0)),
-   (1, .alo true 3),
-   (1, .pstZn 3 false),
-   (1, .conR 3 none (some 1)),
    (1, .ald .zhead .sc (some 2)),
    (1, .ast (.rnext 3) .sc (some 2)),
    (1, .cas .sc (some 2) (some 3) true (some 2)),
    (1, .mul),
    (1, .ret (.erase true)),
    (1, .call .rel),
-   (1, .ald (.rnext 1) .sc (some 0)),
-   (1, .ald (.rowner 0) .sc none),
-   (1, .ald (.rnext 0) .sc none),
-   (1, .pldZn 0 true),
-   (1, .ald (.rnext 0) .sc none),
-   (1, .des true 0),
+   (1, .ald (.rnext 2) .sc (some 0)),
+   (1, .ald (.rowner 0) .sc (some 2)),
+   (1, .ast (.rowner 2) .sc none),
+   (1, .ret .rel),
    (2, .ald (.nnext 1) .sc (some 2)),
    (2, .ret .nxt),
    (2, .call .der),
@@ -393,19 +393,15 @@ def witness12 : List (Tid × Ev) :=
    (2, .ald (.nnext 2) .sc none),
    (2, .ret .nxt),
    (2, .call .rel),
-   (2, .ald (.rnext 2) .sc (some 1)),
-   (1, .fre true 0),
-   (1, .ast (.rnext 1) .sc none),
-   (1, .ast (.rowner 1) .sc none),
-   (1, .ret .rel),
+   (2, .ald (.rnext 0) .sc (some 1)),
    (2, .ald (.rowner 1) .sc none),
    (2, .ald (.rnext 1) .sc none),
    (2, .pldZn 1 true),
    (2, .ald (.rnext 1) .sc none),
    (2, .des true 1),
    (2, .fre true 1),
-   (2, .ast (.rnext 2) .sc none),
-   (2, .ast (.rowner 2) .sc none),
+   (2, .ast (.rnext 0) .sc none),
+   (2, .ast (.rowner 0) .sc none),
    (2, .ret .rel),
    (0, .call .dtor),
    (0, .ald .head .sc (some 0)),
@@ -425,19 +421,24 @@ def witness12 : List (Tid × Ev) :=
    (0, .des true 3),
    (0, .fre true 3),
    (0, .ald (.rowner 2) .sc none),
-   (0, .ald (.rnext 2) .sc none),
+   (0, .ald (.rnext 2) .sc (some 0)),
    (0, .pldZn 2 true),
    (0, .des true 2),
    (0, .fre true 2),
+   (0, .ald (.rowner 0) .sc none),
+   (0, .ald (.rnext 0) .sc none),
+   (0, .pldZn 0 true),
+   (0, .des true 0),
+   (0, .fre true 0),
    (0, .ret .dtor)]
 
 /-- the writer's `erase` has returned; the reader still stands on the unlinked node 1; node 2 is still ahead -/
 example : ∃ s g, ReachableH (s, g) ∧ s.it 2 = some (some 1) ∧ s.lst = [0, 2] ∧ s.order = [0, 1, 2] ∧
-    g.base 2 = [0, 1, 2] ∧ g.seen 2 = [1, 0] ∧ 2 ∈ Below s.order 1 :=
-  ⟨_, _, ⟨witness12.take 100, rfl⟩, by decide, by decide, by decide, by decide, by decide, by decide⟩
+    g.base 2 = [0, 1] ∧ g.seen 2 = [1, 0] ∧ 2 ∈ Below s.order 1 :=
+  ⟨_, _, ⟨witness12.take 102, rfl⟩, by decide, by decide, by decide, by decide, by decide, by decide⟩
 
-/-- the reader has reached the end: it visited 0, the erased 1, and 2 -/
-example : ∃ s g, ReachableH (s, g) ∧ s.it 2 = some none ∧ s.lst = [0, 2] ∧ g.base 2 = [0, 1, 2] ∧ g.seen 2 = [2, 1, 0] :=
+/-- the reader has reached the end: it visited 0, the erased 1, and 2 (which was pushed after the traversal began) -/
+example : ∃ s g, ReachableH (s, g) ∧ s.it 2 = some none ∧ s.lst = [0, 2] ∧ g.base 2 = [0, 1] ∧ g.seen 2 = [2, 1, 0] :=
   ⟨_, _, ⟨witness12.take 114, rfl⟩, by decide, by decide, by decide, by decide⟩
 
 /-- four critical sections, four mutations, and the list they produce -/
